@@ -28,7 +28,7 @@ func checkC07(w *World, r *Report) {
 
 // checkNodeConstruction is the rule shared by C07 (C07.1/C07.2) and C02 (C02.6).
 func checkNodeConstruction(w *World, r *Report, id string) {
-	ru := r.Rule(id, "node construction discipline: node structs are allocated only inside newNodeFromRef (which derives params and the infix sub-node from the key) or as empty roots whose two child indexes are set to -1; newNode sorts the child list before deriving childKeys and the param/catch-all indexes; every other call of newNodeFromRef passes the four child-table values of one and the same node, or (nil, nil, -1, -1)", 20)
+	ru := r.Rule(id, "node construction discipline: node structs are allocated only inside newNodeFromRef (which derives params and the infix sub-node from the key) or as empty roots whose two child indexes are set to -1; newNode sorts the child list before deriving childKeys and the param/catch-all indexes; every other call of newNodeFromRef passes the four child-table values of one and the same node, or (nil, nil, -1, -1)", 10)
 	o := newOwn(w)
 	nodeT := o.nodeT
 	fromRef := w.Func("newNodeFromRef")
@@ -207,10 +207,27 @@ func checkNodeConstruction(w *World, r *Report, id string) {
 				want := fieldsWanted[i]
 				b, f, isLoad := loadedField(a)
 				if i == 0 && !isLoad {
-					// clone(): a private copy of the same node's children
+					// clone(): a private copy of the same node's children, made here or by a helper method of that node
 					if ms, isMake := a.(*ssa.MakeSlice); isMake {
 						if src := copySourceOf(ms); src != nil {
 							b, f, isLoad = loadedField(src)
+						}
+					}
+					if cc, isCall := a.(*ssa.Call); isCall {
+						if callee := cc.Call.StaticCallee(); callee != nil && len(cc.Call.Args) == 1 && callee.Blocks != nil {
+							eachInstr(callee, func(x ssa.Instruction) {
+								ret, ok := x.(*ssa.Return)
+								if !ok || len(ret.Results) != 1 {
+									return
+								}
+								if ms, ok := ret.Results[0].(*ssa.MakeSlice); ok {
+									if src := copySourceOf(ms); src != nil {
+										if cb, cf, ok := loadedField(src); ok && cb == ssa.Value(callee.Params[0]) {
+											b, f, isLoad = cc.Call.Args[0], cf, true
+										}
+									}
+								}
+							})
 						}
 					}
 				}
